@@ -15,6 +15,7 @@ import MW.Lemmas.Deepen3Ex
 import MW.Lemmas.Deepen4Resume
 import MW.Lemmas.Deepen4Ex
 import MW.Lemmas.Deepen4Unguarded
+import MW.Lemmas.Deepen5Ex
 namespace MW.Props.C06
 open MW MW.Model.Ledger MW.Model.Persist MW.Spec.Persist MW.Lemmas.PersistOp MW.Lemmas.PersistFault MW.Lemmas.PersistCrash
 
@@ -856,5 +857,140 @@ example : Lemmas.Deepen3.removePrefix 10 2 sRem.env "W1" (Lemmas.Deepen3.addrsOf
 example : Lemmas.Deepen3.importPrefix 1000 2 s0.env "W9" 0 pImp (bootVol pImp) = some (pImp, bootVol pImp) ∧
     Lemmas.Deepen3.importDone pImp "W9" = false ∧ AMap.get pImp.led.status "W9" = some ⟨some 0, false⟩ :=
   ⟨rfl, by decide, by decide⟩
+
+-- ------------------------------------------------------------------ Round 5: handler steps and non-quiet crashes inside a REMOVAL window
+section Round5
+open MW.Lemmas.Deepen3 MW.Lemmas.Deepen4 MW.Lemmas.Deepen5
+
+/-- **jt_removal_window_handler_step** (round 5).  The invariant `JTW` = round 4's `JT` with the phase of a removal
+    window generalised from C08's `Mid` to C08 round 7's relaxed state (`JRmidW`: a ghost store following the chain with
+    the wallet flagged, the real store related by `SubW`, `Reach`, `MidCW` — `P2W`).  ONE HANDLER STEP inside a removal
+    window keeps it: the follower handles the next queued notification — a block of the node's chain at ANY height
+    (extension; reorganisation of any depth, also below the height at which the wallet was flagged) — on the partly
+    deleted wallet.  Hypotheses, both C08's (`DomW` / `irun … = some x`): the block is on the node's chain (no stale
+    notification), and — asked of the LAST queued notification only: a failing transaction changes nothing (one Update),
+    which keeps the invariant while another notification is queued — its database transaction succeeds (C08 leaves open whether the follower can fail on
+    stale entries of the wallet being removed). -/
+theorem jt_removal_window_handler_step {cfg : Cfg} {G : Block} (E : StaticOK cfg.st G) (cr : Bool) {x : SysQ}
+    {k : SkelT} {w : Wid} (hJ : JTW cfg G x k) (hbusy : k.busy = some (.rem w))
+    (hon : ∀ b, x.queue.head? = some b → k.base.chain[b.height]? = some b)
+    (hok : ∀ b, x.queue = [b] →
+      ((opBlock (envAt cfg.st k.base.chain) cfg.n b).run none x.P x.V).ok = true) :
+    JTW cfg G (stepT cfg cr x (.q .handle)) (skStepT cfg k (.q .handle)) := JTW_handle E cr hJ hbusy hon hok
+
+/-- **jt_removal_window_crash** (round 5): a crash inside a removal window at ANY point — the follower may lag or sit on
+    a stale branch; Start's resync step and catch-up loop are handler steps on the relaxed state (`crash_reaches_p2w`),
+    `initTaskChan` queues the removal again.  Hypothesis: Start succeeds (at a quiet point it does: round 4's
+    `crash_quiet_store`).  Afterwards nothing is queued and the relaxed state holds for the node's WHOLE chain. -/
+theorem jt_removal_window_crash {cfg : Cfg} {G : Block} (E : StaticOK cfg.st G) {x : SysQ} {k : Skel} {w : Wid}
+    (hJ : JRW cfg G x k w) (hok : (Model.Persist.crash (envAt cfg.st k.chain) cfg.n x.P).ok = true) :
+    JRW cfg G (stepQ cfg.st cfg.n true x .crash) k w ∧ (stepQ cfg.st cfg.n true x .crash).queue = [] :=
+  JRW_crash E hJ hok
+
+/-- RemoveWallet opens the window in the relaxed state (from round 3's `JQ`, same hypotheses as round 4), and one
+    iteration of the removal keeps it under C08's pending-side clause `PendOK` (`DomW` asks it at the removal steps) -/
+theorem jt_removal_window_open {cfg : Cfg} {G : Block} (cr : Bool) {x : SysQ} {k : Skel} (w : Wid) (hJ : JQ cfg.st G x k)
+    (hw : (AMap.get k.ks w).isSome = true) (hne : ∀ r, AMap.get k.ks w = some r → r.addrs ≠ [])
+    (hoth : ∃ w', w' ≠ w ∧ w' ∈ walletsOf k.ks) (hn : MW.Lemmas.Ledger.KeysNodup x.P.led.credits)
+    (hg : RemGuard x.P) : JRmidW cfg G (stepT cfg cr x (.removeMark w)) k w :=
+  JQ_removeMarkW cr w hJ hw hne hoth hn hg
+theorem jt_removal_window_iteration {cfg : Cfg} {G : Block} (cr : Bool) {x : SysQ} {k : Skel} {w : Wid}
+    (hJ : JRW cfg G x k w) (hp : PendGuard x.P (addrsOf k.ks w)) :
+    JRW cfg G (stepT cfg cr x (.removeStep w)) k w := JRW_removeStep cr hJ hp
+
+/-- **crash_tasks_inv_removal_window** (round 5): every event keeps `JTW`, along every history inside `RunOKW` /
+    `GuardW`, in the crashing run and in the run that never stops. -/
+theorem crash_tasks_inv_removal_window {cfg : Cfg} {G : Block} (E : StaticOK cfg.st G) (hG : G.txs = [])
+    (hb : cfg.batch > 0) (hl : cfg.limit > 0) (cr : Bool) (evs : List EvT) (x : SysQ) (k : SkelT)
+    (hJ : JTW cfg G x k) (hR : RunOKW cfg G k evs) (hg : GuardW cfg cr x k evs) :
+    JTW cfg G (runT cfg cr x evs) (skRunT cfg k evs) := JTW_run E hG hb hl cr evs x k hJ hR hg
+
+/-- **crash_equiv_tasks_removal_window** (round 5) — `crash_equiv_tasks` for histories whose REMOVAL WINDOWS contain
+    HANDLER STEPS (tip notifications: extensions and reorganisations of any depth, handled on the partly deleted
+    wallet) and CRASHES AT NON-QUIET POINTS (the follower lags or sits on a stale branch; Start catches up — a sequence
+    of handler steps — and queues the removal again).  Same conclusion as `crash_equiv_tasks`: with every task window
+    closed and nothing queued in the run that never stops, the crashing run has nothing queued either and holds the
+    same keystore buckets, key cache, tip copy, synced-to, extensionally equal confirmed buckets, equal balances,
+    every wallet ready.
+    Outside a removal window the hypotheses are round 4's (`StepOKT`, `guardEv`).  INSIDE a removal window (`StepRem`,
+    `guardRem`): node events (extensions, reorganisations to any branch), handler steps, unconfirmed transactions
+    (ANY: round 4's "in no chain the node has had" is gone), crashes anywhere, iterations, the drain; explicit state
+    hypotheses, all of them C08's (`DomW` and the success of the follower's transactions contained in `irun = some`):
+    a handled block is on the node's chain (no stale notification inside a removal window) and — when it is the
+    last queued one — its database transaction succeeds; Start succeeds at a crash; `PendOK` at every iteration and at the drain; the worker's loop
+    completes at the drain (`JRW_removeDrain`; that no iteration fails is proved for round 4's `Mid` only).  NOT covered inside a
+    removal window here (covered by `crash_equiv_tasks` for windows without handler steps): CreateWallet / NewAddress
+    (no frame lemma of the relaxed state for a growing keystore table). -/
+theorem crash_equiv_tasks_removal_window {cfg : Cfg} {G : Block} (E : StaticOK cfg.st G) (hG : G.txs = [])
+    (hb : cfg.batch > 0) (hl : cfg.limit > 0) (evs : List EvT) (x0 : SysQ) (k0 : SkelT) (hJ : JTW cfg G x0 k0)
+    (hR : RunOKW cfg G k0 evs) (hg1 : GuardW cfg true x0 k0 evs) (hg2 : GuardW cfg false x0 k0 evs)
+    (hidle : (skRunT cfg k0 evs).busy = none) (hq : (runT cfg false x0 evs).queue = []) :
+    (runT cfg true x0 evs).queue = [] ∧
+    (runT cfg true x0 evs).chain = (runT cfg false x0 evs).chain ∧
+    (runT cfg true x0 evs).P.ks = (runT cfg false x0 evs).P.ks ∧
+    (runT cfg true x0 evs).V.keys = (runT cfg false x0 evs).V.keys ∧
+    AMap.Equiv (runT cfg true x0 evs).P.led.credits (runT cfg false x0 evs).P.led.credits ∧
+    AMap.Equiv (runT cfg true x0 evs).P.led.unspent (runT cfg false x0 evs).P.led.unspent ∧
+    AMap.Equiv (runT cfg true x0 evs).P.led.debits (runT cfg false x0 evs).P.led.debits ∧
+    AMap.Equiv (runT cfg true x0 evs).P.led.game (runT cfg false x0 evs).P.led.game ∧
+    AMap.Equiv (runT cfg true x0 evs).P.led.txrecs (runT cfg false x0 evs).P.led.txrecs ∧
+    AMap.Equiv (runT cfg true x0 evs).P.led.blocks (runT cfg false x0 evs).P.led.blocks ∧
+    AMap.Equiv (runT cfg true x0 evs).P.led.sync (runT cfg false x0 evs).P.led.sync ∧
+    (runT cfg true x0 evs).P.led.syncedTo = (runT cfg false x0 evs).P.led.syncedTo ∧
+    (runT cfg true x0 evs).V.led.best = (runT cfg false x0 evs).V.led.best ∧
+    (∀ w ∈ walletsOf (runT cfg false x0 evs).P.ks,
+      AMap.get (runT cfg true x0 evs).P.led.balance w = AMap.get (runT cfg false x0 evs).P.led.balance w ∧
+      Lemmas.Deepen3.readyB (runT cfg true x0 evs).P.led w = true ∧
+      Lemmas.Deepen3.readyB (runT cfg false x0 evs).P.led w = true) :=
+  Lemmas.Deepen5.crash_equiv_tasks_removal_window E hG hb hl evs x0 k0 hJ hR hg1 hg2 hidle hq
+
+/-- the state hypotheses that are NOT about the success / shape of the follower's work: `RemGuard` at RemoveWallet (round 4)
+    and C08's `PendOK` at the iterations -/
+def guardEvW0 (cfg : Cfg) (x : SysQ) (k : SkelT) (ev : EvT) : Prop :=
+  match k.busy, ev with
+  | some (.rem w), .removeStep _ => PendGuard x.P (addrsOf k.base.ks w)
+  | some (.rem w), .removeDrain _ => PendGuard x.P (addrsOf k.base.ks w)
+  | some (.rem _), _ => True
+  | _, ev => guardEv cfg x ev
+def GuardW0 (cfg : Cfg) (cr : Bool) : SysQ → SkelT → List EvT → Prop
+  | _, _, [] => True
+  | x, k, ev :: evs => guardEvW0 cfg x k ev ∧ GuardW0 cfg cr (stepT cfg cr x ev) (skStepT cfg k ev) evs
+
+/-- NOT PROVED (type-checked statement): `crash_equiv_tasks_removal_window` without the hypotheses inherited from C08's
+    open items — success of the follower's transactions / of Start on the partly deleted wallet, no stale notification
+    inside a removal window, completion of the worker's loop at the drain.  (Whether it holds depends on
+    C08's open totality question: can Rollback fail on stale balance / deposit entries of the wallet being removed?) -/
+def crash_equiv_tasks_removal_window_full : Prop :=
+  ∀ {cfg : Cfg} {G : Block}, StaticOK cfg.st G → G.txs = [] → cfg.batch > 0 → cfg.limit > 0 →
+    ∀ (evs : List EvT) (x0 : SysQ) (k0 : SkelT), JTW cfg G x0 k0 → RunOKW cfg G k0 evs →
+      GuardW0 cfg true x0 k0 evs → GuardW0 cfg false x0 k0 evs →
+      (skRunT cfg k0 evs).busy = none → (runT cfg false x0 evs).queue = [] →
+      (runT cfg true x0 evs).queue = [] ∧
+      (runT cfg true x0 evs).P.ks = (runT cfg false x0 evs).P.ks ∧
+      (runT cfg true x0 evs).V.keys = (runT cfg false x0 evs).V.keys ∧
+      AMap.Equiv (runT cfg true x0 evs).P.led.credits (runT cfg false x0 evs).P.led.credits ∧
+      AMap.Equiv (runT cfg true x0 evs).P.led.unspent (runT cfg false x0 evs).P.led.unspent ∧
+      AMap.Equiv (runT cfg true x0 evs).P.led.debits (runT cfg false x0 evs).P.led.debits ∧
+      AMap.Equiv (runT cfg true x0 evs).P.led.txrecs (runT cfg false x0 evs).P.led.txrecs ∧
+      (runT cfg true x0 evs).V.led.best = (runT cfg false x0 evs).V.led.best
+
+/-- on histories inside round 4's hypotheses that open no removal window … the new invariant is the old one -/
+example {cfg : Cfg} {G : Block} {x : SysQ} {k : SkelT} (h : JT cfg G x k) (hb : ∀ w, k.busy ≠ some (.rem w)) :
+    JTW cfg G x k := JTW_of_JT h hb
+
+/-- non-vacuity (`MW.Lemmas.Deepen5Ex`): extend b1 · handle · extend c2 · handle · CreateWallet w2 · RemoveWallet w1 · one
+    iteration · reorgTo 1 [e2] · HANDLE (a reorganisation on the partly deleted wallet) · reorgTo 1 [c2] · CRASH (c2 queued
+    in the run that never stops: non-quiet; Start reorganises back) · handle · removeDrain (the finishing iteration) — every
+    hypothesis of `crash_equiv_tasks_removal_window` holds in both runs, and the theorem gives the agreement -/
+example : JTW exCfg MW.Lemmas.Ledger.hxG exX0 exK0T ∧ RunOKW exCfg MW.Lemmas.Ledger.hxG exK0T exEvsR ∧
+    (∀ cr, GuardW exCfg cr exX0 exK0T exEvsR) ∧ (skRunT exCfg exK0T exEvsR).busy = none ∧
+    (runT exCfg false exX0 exEvsR).queue = [] :=
+  ⟨exJTW0, exRunOKW, exGuardW, by rw [exSkelR], exQuietR⟩
+example : (runT exCfg true exX0 exEvsR).queue = [] ∧
+    (runT exCfg true exX0 exEvsR).P.ks = (runT exCfg false exX0 exEvsR).P.ks ∧
+    AMap.Equiv (runT exCfg true exX0 exEvsR).P.led.credits (runT exCfg false exX0 exEvsR).P.led.credits ∧
+    (runT exCfg true exX0 exEvsR).V.led.best = (runT exCfg false exX0 exEvsR).V.led.best := exEquivR
+
+end Round5
 
 end MW.Props.C06
